@@ -77,7 +77,18 @@ func init() {
 			n := c29.BuildNet(in)
 			n.TraceEvents()
 			n.Run()
-			fp := append(n.EventTrace(), n.Fingerprint()...)
+			// the handled-event trace (time, handler, class per event) can be tens of thousands
+			// of entries: one chained digest per 256 events, and the count
+			ev := n.EventTrace()
+			fp := []uint64{uint64(len(ev) / 3)}
+			h := uint64(1469598103934665603)
+			for i, x := range ev {
+				h = (h ^ x) * 1099511628211
+				if (i+1)%768 == 0 || i == len(ev)-1 {
+					fp = append(fp, h>>2)
+				}
+			}
+			fp = append(fp, n.Fingerprint()...)
 			json.NewEncoder(os.Stdout).Encode(map[string]any{"fp": fp, "events": len(n.EventTrace()) / 3, "done": true})
 		}
 		os.Exit(0)
@@ -339,7 +350,7 @@ func init() {
 		Imports: "From Akita Require Import Lib.Base Lib.AbsSim C06.Model C06.Exec C03.Exec.",
 		Rule: "each scripted simulation and each library assembly (ideal, wt, wb, wt+wb, banked, vm stack, dram, wb+dram) is run in 3 FRESH " +
 			"PROCESSES (GOMAXPROCS 16, 1, 4); compared: the handled-event trace incl. generated IDs, every entity's final checkpoint payload, " +
-			"the driver's response log (scripts: also against the Coq model); real networks (switches + endpoints of every connector family with scripted devices) likewise: handled-event trace (time, handler, class) and every device-port hand-over/arrival with its time. Recorder cases feed the same entries to 8-12 fresh data recorders " +
+			"the driver's response log (scripts: also against the Coq model); real networks (switches + endpoints of every connector family with scripted devices) likewise: handled-event trace (time, handler, class; chained digests of 256 events) and every device-port hand-over/arrival with its time. Recorder cases feed the same entries to 8-12 fresh data recorders " +
 			"(table creation order rotated) and compare location IDs and rows. Non-trivial: script with >= 3 events; every library case; " +
 			"recorder with >= 2 tables and >= 2 distinct locations.",
 		Gen: gen, Run: run, Shrink: shrink,
